@@ -71,6 +71,12 @@ def _group(args):
                 # a FormDataParser used once, and one that is re-used after its limit attributes were assigned)
                 variants = [("request", sk) for sk in (("full", "pep3333", "short") if (term or not has_cl) else ("full", "pep3333"))]
                 variants += [("parse_form_data", "full"), ("from_environ", "pep3333"), ("reused", "full")]
+                # second access on the same Request, where the body is still there to be parsed again: cached by
+                # get_data() (no content-length limit in play), or refused before anything was read (only that limit)
+                if mcl is None and has_cl and not term:
+                    variants.append(("cached-twice", "full"))
+                if mm is None and mpn is None:
+                    variants.append(("twice", "full"))
                 for entry, sk in variants:
                     r = mp.run_request(body, ct, mcl=mcl, maxmem=mm, maxparts=mpn, has_cl=has_cl, term=term, stream_kind=sk, entry=entry)
                     runs.append({"op": "req", "api": "request", "entry": entry, "mcl": -1 if mcl is None else mcl,
